@@ -89,6 +89,12 @@ func firstComponent(diff string) string {
 }
 
 func TestC10_Reorg(t *testing.T) {
+	// every other shard runs with long lockup epochs (one tranche lives for 16 blocks instead of 4),
+	// so that blocks on the branches overwrite tranches created before the fork point instead of
+	// creating their own
+	if stats.Shard()%2 == 1 {
+		sim.DefaultScale.CoinbaseEpochBlocks = 16
+	}
 	rapid.Check(t, func(t *rapid.T) {
 		index := rapid.Bool().Draw(t, "indexAddressUtxos")
 		opt := sim.Options{}
@@ -105,6 +111,9 @@ func TestC10_Reorg(t *testing.T) {
 		if rapid.IntRange(0, 2).Draw(t, "lockupHeavy") == 0 || os.Getenv("VERIF_C10_LOCKUP_HEAVY") != "" {
 			trunk.StickyPct = 70
 			stats.Label(part, "lockup_heavy")
+			if sim.DefaultScale.CoinbaseEpochBlocks > 4 {
+				stats.Label(part, "lockup_heavy_long_epochs")
+			}
 		}
 		if err := trunk.Prelude(); err != nil {
 			t.Fatalf("HARNESS: prelude: %v", err)
